@@ -16,7 +16,7 @@ EPILOGUE_CLEAN = [["gate_all"], ["fin_all", "ret"], ["gate_all"], ["stop"], ["ad
 
 def _msgs(rng: random.Random, n: int, kinds: List[str], tasks: List[str], instant_p: float = 0.0,
           outcomes: List[str] = ["ret"], timeout_p: float = 0.0, savefail_p: float = 0.0,
-          ackfail_p: float = 0.0) -> List[Dict[str, Any]]:
+          ackfail_p: float = 0.0, dup_p: float = 0.0) -> List[Dict[str, Any]]:
     out = []
     for _ in range(n):
         m: Dict[str, Any] = {"kind": rng.choice(kinds)}
@@ -27,10 +27,13 @@ def _msgs(rng: random.Random, n: int, kinds: List[str], tasks: List[str], instan
                 m["outcome"] = rng.choice(outcomes)
             elif rng.random() < timeout_p:
                 m["timeout"] = rng.choice([2, 5, 7])
+                m["slowcancel"] = rng.random() < 0.4
             if rng.random() < savefail_p:
                 m["savefail"] = True
             if rng.random() < ackfail_p:
                 m["ackfail"] = True
+            if out and rng.random() < dup_p:
+                m["tid"] = rng.randint(1, len(out))      # carries the task id of an earlier message (redelivery / retry)
         out.append(m)
     return out
 
@@ -85,6 +88,46 @@ def gen_flow(seed: int, n: int) -> List[Scn]:
         else:
             steps += [["adv_rel", 7]]
         out.append({"cfg": cfg, "steps": steps, "family": "flow"})
+    return out
+
+
+def gen_api(seed: int, n: int) -> List[Scn]:
+    """The same worker built by the programmatic entry point taskiq.api.run_receiver_task (argument wiring)."""
+    rng = random.Random(("api", seed).__repr__())
+    out = []
+    for _ in range(n):
+        A = rng.choice([0, 1, 2, 3])
+        P = rng.choice([0, 1, 2, 3])
+        M = rng.randint(A + P + 1, A + P + 4)
+        deps = _rand_deps(rng, 3, 0.3, 0.1) if rng.random() < 0.5 else []
+        cfg = {"via": "api", "A": A, "P": P, "ack": rng.choice(["default", "when_received", "when_executed", "when_saved"]),
+               "propagate": rng.random() < 0.5, "deps": deps,
+               "msgs": _msgs(rng, M, ["valid"] * 8 + ["malformed", "unknown"], ["ta0", "ta"] if deps else ["ta0"], instant_p=0.2,
+                             outcomes=["ret", "exc", "nores"], timeout_p=0.15, savefail_p=0.1)}
+        steps: List[Any] = []
+        left = M
+        while left > 0:
+            b = rng.randint(1, left)
+            left -= b
+            steps.append(["arrive", b])
+            for _ in range(rng.randint(0, 3)):
+                steps.append(rng.choice([["fin_any", rng.randint(0, 3), rng.choice(["ret", "exc"])], ["gate_any", rng.randint(0, 3)],
+                                         ["adv_rel", rng.choice([1, 3, 4])]]))
+        faulty = rng.random() < 0.35
+        if faulty:
+            # the broker stream breaks (connection lost) while the worker is IDLE, up to A+1 times; run_receiver_task restarts
+            # listening; afterwards the worker must still be able to run A messages at once (saturation probe)
+            cfg["msgs"] = [{"kind": "valid", "task": "ta0"} for _ in range((A or 3) + P + 2)]
+            cfg["deps"] = []
+            k = rng.randint(1, (A or 1) + 1)
+            steps = [["adv_rel", rng.choice([0, 1, 4])]] + [["stream_error"], ["adv_rel", rng.choice([0, 1, 3])]] * k
+            steps += [["arrive", len(cfg["msgs"])], ["probe", 1]]
+            out.append({"cfg": cfg, "steps": steps, "family": "api_entry_faulty", "noconf": True})
+            continue
+        steps += [["gate_all"], ["adv_rel", 8]]
+        if rng.random() < 0.5:
+            steps += [["fin_all", "ret"], ["gate_all"], ["adv_rel", 4]]
+        out.append({"cfg": cfg, "steps": steps, "family": "api_entry"})
     return out
 
 
@@ -158,7 +201,7 @@ def gen_pipe(seed: int, n: int) -> List[Scn]:
     """C02/C07/C10: ack types, outcomes, middleware stacks, backend failures."""
     rng = random.Random(("pipe", seed).__repr__())
     out = []
-    modes = ["", "", "sync", "async", "gate"]
+    modes = ["", "", "sync", "async", "gate", "future"]
     for _ in range(n):
         nm = rng.randint(0, 3)
         mws = []
@@ -170,9 +213,9 @@ def gen_pipe(seed: int, n: int) -> List[Scn]:
         cfg = {"A": rng.choice([0, 1, 2, 3]), "P": rng.choice([0, 1, 2]),
                "ack": rng.choice(["default", "when_saved", "when_received", "when_executed"]),
                "ack_async": rng.random() < 0.5, "ackable": rng.random() < 0.9,
-               "backend_suspend": rng.random() < 0.3, "mws": mws,
+               "backend_suspend": rng.random() < 0.3, "mws": mws, "propagate": rng.random() < 0.6,
                "msgs": _msgs(rng, M, ["valid"] * 9 + ["malformed"], ["ta0", "ta0", "ts0"], instant_p=0.3,
-                             outcomes=["ret", "exc", "base", "nores", "cerr"], timeout_p=0.3, savefail_p=0.3, ackfail_p=0.1)}
+                             outcomes=["ret", "exc", "base", "nores", "cerr"], timeout_p=0.3, savefail_p=0.3, ackfail_p=0.1, dup_p=0.25)}
         steps: List[Any] = [["arrive", M]]
         for _ in range(rng.randint(0, 10)):
             r = rng.random()
